@@ -128,7 +128,29 @@ def u_toolong(E):
     invalid_unit(E, 'ipm_info[first length > max]', C, 'first length above the configured maximum')
 
 
-@unit('ipm_info/unconfigured-bitmap-bit', props=['C17'], functions=[M + 'ipm_info', M + 'bitmap_check'])
+def mk_badbit_one(which):
+    @unit('ipm_info/unconfigured-bitmap-bit[%s]' % which, props=['C17'], functions=[M + 'ipm_info', M + 'bitmap_check'])
+    def u(E):
+        """one concrete unconfigured bit set (first / a middle one / the last, bit 128), every other bitmap bit arbitrary"""
+        C = E.fresh_seq('bytes', 'C')
+        E.assume(C.n >= 24)
+        E.assume(S.be32_value(C, 0) <= max_len(E))
+        cfg_bits = set(configured_bits(E))
+        unconf = [b for b in range(2, 129) if b not in cfg_bits]
+        bit = {'first': unconf[0], 'middle': unconf[len(unconf) // 2], 'last': unconf[-1]}[which]
+        E.assume(bit_of_byte_int(C.at(8 + (bit - 1) // 8), (bit - 1) % 8))
+        for b in unconf:          # the other unconfigured bits are clear, so THIS bit must be what is reported
+            if b != bit:
+                E.assume(z3.Not(bit_of_byte_int(C.at(8 + (b - 1) // 8), (b - 1) % 8)))
+        invalid_unit(E, 'ipm_info[unconfigured bit %s]' % which, C, 'bitmap uses an element without configuration')
+    return u
+
+
+for _w in ('first', 'middle', 'last'):
+    mk_badbit_one(_w)
+
+
+@unit('ipm_info/unconfigured-bitmap-bit', props=['C17'], functions=[M + 'ipm_info', M + 'bitmap_check'], thorough_only=True)
 def u_badbit(E):
     """for EVERY bit 2..128 without configuration (symbolic choice of the bit through 127 flags)"""
     C = E.fresh_seq('bytes', 'C')
